@@ -124,7 +124,7 @@ Verdict soundTemplateProp(Ctx& c) { return soundWith(c, false, true); }
 // The empty set has the "any" type, on which checkers and evaluators take shortcuts.  A small family of expressions puts the
 // empty set (or something typed like it) into every operand position of the structure-sensitive operators, next to operands
 // of every other shape; whatever the checker accepts must evaluate safely.  Enumerated exhaustively.
-Verdict anyTypeProp(Ctx& c) {
+Verdict anyTypeWith(Ctx& c, const std::vector<std::string>& forms) {
   static const Gamma G = [] {
     Gamma g;
     { Global x; x.name = "X1"; x.isBase = true; x.type = Ty::Set(Ty::Base("X1")); x.value = Val::Set({Val::Int(1), Val::Int(2)}); g.globals.push_back(x); }
@@ -135,12 +135,6 @@ Verdict anyTypeProp(Ctx& c) {
   static const std::vector<std::string> empties = {"\xE2\x88\x85", "Pr1(\xE2\x88\x85\xC3\x97X1)", "red(\xE2\x88\x85)", "\xE2\x88\x85\\X1", "X1\\X1", "{\xE2\x88\x85}"};
   static const std::vector<std::string> others = {"1", "(1,2)", "D1", "X1", "{X1}", "S1", "card(X1)", "\xE2\x88\x85", "(D1,\xE2\x88\x85)"};
   const std::string E = c.oneof(empties), A = c.oneof(others), B = c.oneof(others);
-  static const std::vector<std::string> forms = {
-    "Fi1[A](E)", "Fi1,2[A,B](E)", "Fi1,2[A](E)", "Fi2,1[A](E)", "Fi1[E](S1)", "Fi1[E](E)",
-    "Pr1(E)", "Pr2,1(E)", "pr1(debool(E))", "red(E)", "card(E)", "debool(E)", "bool(E)", "\xE2\x84\xAC(E)",
-    "E\xC3\x97" "A", "A\xC3\x97" "E", "E\xE2\x88\xAA" "A", "A\\E", "A\xE2\x88\x88" "E", "E\xE2\x88\x88" "A", "E\xE2\x8A\x86" "A", "A=E",
-    "\xE2\x88\x80x\xE2\x88\x88" "E x=A", "D{x\xE2\x88\x88" "E|x=A}", "R{x:=E|x\xE2\x88\xAA" "A}", "R{x:=A|1=2|E}", "I{(x,A)|x:\xE2\x88\x88" "E}", "card(debool(R{x:=S1|1=2|E}))",
-    "{A,E}", "(A,E)", "pr2((A,E))", "debool({E})\xE2\x88\xAA" "A"};
   std::string text = c.oneof(forms);
   auto subst = [&](const std::string& key, const std::string& val) { for (size_t p = text.find(key); p != std::string::npos; p = text.find(key, p + val.size())) { const bool idStart = p > 0 && (std::isalnum(static_cast<unsigned char>(text[p - 1])) != 0); const bool idEnd = p + 1 < text.size() && (std::isalnum(static_cast<unsigned char>(text[p + 1])) != 0); if (idStart || idEnd) { p += 1 - val.size(); continue; } text.replace(p, 1, val); } };
   subst("E", E); subst("A", A); subst("B", B);
@@ -158,6 +152,23 @@ Verdict anyTypeProp(Ctx& c) {
   if (res.status == pbt::ChildResult::TIMEOUT || res.status == pbt::ChildResult::STARVED) { c.count("inconclusive-timeout"); return pbt::pass(); }
   if (res.status == pbt::ChildResult::CRASH) return pbt::fail("crash", "evaluation of accepted '" + text + "' crashed: " + res.crashInfo);
   return res.verdict;
+}
+Verdict anyTypeProp(Ctx& c) {
+  static const std::vector<std::string> forms = {
+    "Fi1[A](E)", "Fi1,2[A,B](E)", "Fi1,2[A](E)", "Fi2,1[A](E)", "Fi1[E](S1)", "Fi1[E](E)",
+    "Pr1(E)", "Pr2,1(E)", "pr1(debool(E))", "red(E)", "card(E)", "debool(E)", "bool(E)", "\xE2\x84\xAC(E)",
+    "E\xC3\x97" "A", "A\xC3\x97" "E", "E\xE2\x88\xAA" "A", "A\\E", "A\xE2\x88\x88" "E", "E\xE2\x88\x88" "A", "E\xE2\x8A\x86" "A", "A=E",
+    "\xE2\x88\x80x\xE2\x88\x88" "E x=A", "D{x\xE2\x88\x88" "E|x=A}", "R{x:=E|x\xE2\x88\xAA" "A}", "R{x:=A|1=2|E}", "I{(x,A)|x:\xE2\x88\x88" "E}", "card(debool(R{x:=S1|1=2|E}))",
+    "{A,E}", "(A,E)", "pr2((A,E))", "debool({E})\xE2\x88\xAA" "A"};
+  return anyTypeWith(c, forms);
+}
+// Enumerations of three elements: the element types are merged pairwise, so an empty-typed element in any position must not
+// let two mutually incompatible siblings through (a merge against the first element only, or against the previous one only,
+// would).  The enumeration is also consumed by operators that look inside its members.  Exhaustive.
+Verdict anyTypeEnumProp(Ctx& c) {
+  static const std::vector<std::string> forms = {
+    "{E,A,B}", "{A,E,B}", "{A,B,E}", "Pr1(red({E,A,B}))", "red({A,E,B})\xE2\x8A\x86X1", "card(red({A,B,E}))", "{E,A}\xE2\x88\xAA{B}", "{{E,A},{B}}"};
+  return anyTypeWith(c, forms);
 }
 
 // Two tuple-typed operands that differ in exactly one component (first, middle or last), meeting in every operation that
@@ -281,6 +292,7 @@ int main(int argc, char** argv) {
   props.push_back({"accepted_with_name_reuse", soundScopingProp, 800, 6000, false, false, "the same with binders re-declaring names of ended scopes (any depth) and one occurrence of a local renamed to another local of the tree; accepted ones evaluated"});
   props.push_back({"template_calls", soundTemplateProp, 800, 6000, false, false, "calls of functions whose parameter types are tuples / sets of tuples / nested sets over shared radicals, three quarters mutated; accepted ones evaluated"});
   props.push_back({"any_type_operands", anyTypeProp, 0, 0, true, false, "exhaustive: 32 operator forms x 6 spellings of an empty-typed operand x 9x9 sibling operands of every shape; accepted ones evaluated"});
+  props.push_back({"any_type_enumerations", anyTypeEnumProp, 0, 0, true, false, "exhaustive: 8 forms around a three-element enumeration x 6 spellings of an empty-typed element (each position) x 9x9 siblings of every shape; accepted ones evaluated"});
   props.push_back({"tuple_component_mismatch", tupleMismatchProp, 0, 0, true, false, "exhaustive: tuples of arity 2-3 that differ in one component (each position, two kinds of difference) in 12 operations that demand compatible operands"});
   props.push_back({"binder_confusion", binderProp, 1000, 8000, false, false, "binders of every pattern form over sets of tuples; variable uses swapped; accepted ones evaluated"});
   return pbt::main(argc, argv, "C02", props);
